@@ -334,6 +334,269 @@ def cli_replay_translate(tool, pattern, path, in_impl):
     return rep
 
 
+# ------------------------------------------------------------------------------------------------ upstream search
+class P:
+    """a path spelling (plain text) in a tiny fixed world: /x/real/repo/sub are directories, /x/link -> /x/real"""
+    def __init__(self, text):
+        self.text = text
+
+    def clone_model(self, ctx):
+        return P(self.text)
+
+
+def realpath(t):
+    t = os.path.normpath(t)
+    if t == '/x/link' or t.startswith('/x/link/'):
+        t = '/x/real' + t[len('/x/link'):]
+    return t
+
+
+def fam_upstream(sess):
+    """search_upstream_dockerignore / search_upstream_hgignore (real MIR): starting from the search root however it is spelled (canonical,
+    through a symbolic link, with `..`), the ignore file of the nearest ancestor of the root's REAL location is used, and the patterns are
+    anchored at that real directory (entries are compared by canonical path)"""
+    prog = sess.prog
+    fam = 'upstream'
+    spellings = ['/x/real/repo', '/x/link/repo', '/x/real/repo/sub/..', '/x/link/repo/sub/../sub']
+    holders = ['/x/real/repo', '/x/real', '/x', None]
+    sess.bounds[fam] = {'root spellings': spellings, 'directory holding the ignore file': holders, 'world': '/x/real/repo/sub directories, /x/link -> /x/real'}
+
+    def models():
+        out = []
+
+        def reg(pat, name):
+            def deco(f):
+                out.append((pat, f, name)); return f
+            return deco
+
+        @reg(r'^(std::path::)?Path::to_path_buf$|^<PathBuf as Clone>::clone$|^<PathBuf as Deref>::deref$|^(std::path::)?PathBuf::as_path$|^<PathBuf as DerefMut>::deref_mut$', 'path identity')
+        def ident(ctx, args, callee):
+            v = ctx.deref(args[0])
+            return args[0] if ('deref' in callee or 'as_path' in callee) else P(v.text)
+
+        @reg(r'^(std::fs::)?canonicalize$', 'fs:canonicalize (world model)')
+        def canon(ctx, args, callee):
+            return ok(P(realpath(ctx.deref(args[0]).text)))
+
+        @reg(r'^(std::path::)?Path::to_string_lossy$', 'path text')
+        def lossy(ctx, args, callee):
+            return EnumV(0, {0: [Str(ctx.deref(args[0]).text)]}, 'Cow')
+
+        @reg(r'^(std::path::)?Path::is_absolute$', 'Path::is_absolute')
+        def is_abs(ctx, args, callee):
+            return BoolVal(ctx.deref(args[0]).text.startswith('/'))
+
+        @reg(r'^<PathBuf as From<.*>>::from$|^(std::path::)?PathBuf::from$|^(std::path::)?Path::new$', 'PathBuf::from(text)')
+        def pb_from(ctx, args, callee):
+            v = ctx.deref(args[0])
+            r = P(v.text if isinstance(v, P) else v.s)
+            return Ref(Cell(r)) if callee.endswith('Path::new') else r
+
+        @reg(r'^(std::path::)?Path::join$', 'Path::join')
+        def join(ctx, args, callee):
+            a = ctx.deref(args[0]).text; b = ctx.deref(args[1])
+            b = b.text if isinstance(b, P) else b.s
+            return P(b if b.startswith('/') else a.rstrip('/') + '/' + b)
+
+        @reg(r'^(std::path::)?PathBuf::pop$', 'PathBuf::pop')
+        def pop(ctx, args, callee):
+            p_ = ctx.deref(args[0])
+            if p_.text in ('/', ''):
+                return BoolVal(False)
+            p_.text = os.path.dirname(p_.text.rstrip('/')) or '/'
+            return BoolVal(True)
+
+        @reg(r'^(std::path::)?Path::is_file$|^(std::path::)?Path::is_dir$|^(std::path::)?Path::exists$', 'fs: is_file / is_dir in the world')
+        def is_file(ctx, args, callee):
+            t = realpath(ctx.deref(args[0]).text)
+            holder = ctx.ghost['holder']
+            if holder is None:
+                return BoolVal(False)
+            return BoolVal(t in (holder + '/.dockerignore', holder + '/.hgignore', holder + '/.hg'))
+
+        @reg(r'parse_dockerignore$|parse_hgignore$', 'summary: parse_*ignore(file, base) records the base directory')
+        def parse(ctx, args, callee):
+            ctx.ghost.setdefault('parsed', []).append((ctx.deref(args[0]).text, ctx.deref(args[1]).text))
+            return ok(Seq([]))
+        return out
+    for which, fname in (('docker', 'search_upstream_dockerignore'), ('hg', 'search_upstream_hgignore')):
+        ex = sess.executor(models(), unwind=12)
+        f = prog.find_free(fname)
+        box = {'paths': 0}
+
+        def run(ctx):
+            si = ctx.concretize(ctx.fresh_bv('spelling', 8), range(len(spellings)))
+            hi = ctx.concretize(ctx.fresh_bv('holder', 8), range(len(holders)))
+            ctx.ghost['holder'] = holders[hi]
+            ctx.call_fn(f, [Ref(Cell(Seq([]))), Ref(Cell(P(spellings[si])))])
+            return spellings[si], holders[hi]
+
+        def on_path(ctx, out, which=which):
+            box['paths'] += 1
+            nm = '%s %s' % (fam, which)
+            if out[0] != 'ret':
+                if not box.get('bad'):
+                    box['bad'] = True; sess.inconclusive(nm, str(out)[:300], fam)
+                return
+            sp, holder = out[1]
+            parsed = ctx.ghost.get('parsed', [])
+            want = [] if holder is None else [holder]
+            got = [b for _, b in parsed]
+            if got == want or box.get('viol'):
+                return
+            box['viol'] = True
+            sess.violated(nm, 'upstream/%s/%s' % (which, 'noncanonical-root' if realpath(sp) != sp else 'canonical-root'),
+                          'root spelled %r, ignore file in %r: patterns anchored at %r (expected %r)' % (sp, holder, got, want), {'root': sp, 'holder': holder},
+                          cli_replay_upstream(which), fam)
+        ex.explore(run, on_path)
+        if not box.get('viol') and not box.get('bad'):
+            sess.discharged('%s %s: the nearest ancestor of the real root location, anchored at its canonical path' % (fam, which), family=fam, queries=box['paths'])
+
+
+def cli_replay_upstream(which):
+    def rep():
+        exe = common.native_binary()
+        d = tempfile.mkdtemp(prefix='verif-c20u-', dir=common.SCRATCH_ROOT)
+        try:
+            real = os.path.join(d, 'real', 'repo'); os.makedirs(os.path.join(real, 'sub'))
+            os.symlink(os.path.join(d, 'real'), os.path.join(d, 'link'))
+            open(os.path.join(real, 'keep.txt'), 'w').write('x'); open(os.path.join(real, 'drop.log'), 'w').write('x')
+            if which == 'hg':
+                os.makedirs(os.path.join(real, '.hg')); open(os.path.join(real, '.hgignore'), 'w').write('syntax: glob\n*.log\n')
+            else:
+                open(os.path.join(real, '.dockerignore'), 'w').write('*.log\n')
+            env = {'PATH': os.environ['PATH'], 'HOME': d, 'TZ': 'UTC'}
+            out = {}
+            for label, root in (('canonical', real), ('through-link', os.path.join(d, 'link', 'repo')), ('dotdot', os.path.join(real, 'sub', '..'))):
+                p = subprocess.run([exe, 'name', 'from', root, '%signore' % which, 'depth', '1'], env=env, stdout=subprocess.PIPE, stderr=subprocess.PIPE, timeout=20)
+                out[label] = sorted(x for x in p.stdout.decode().split('\n')[:-1] if not x.startswith('.'))
+            bad = any('drop.log' in v for v in out.values()) or any('keep.txt' not in v for v in out.values())
+            return bad, 'name from <root> %signore, root spelled three ways: %r (drop.log must be omitted in all)' % (which, out)
+        finally:
+            shutil.rmtree(d, ignore_errors=True)
+    return rep
+
+
+def fam_gitarg(sess):
+    """gitignore: the verdict itself is libgit2's (FFI, outside); what IS fselect's is which path it asks about. The real walker with the
+    `gitignore` option over the abstract file system (files, directories, links): Repository::is_path_ignored is asked once per listed
+    entry about the entry's OWN path (a link is judged by its own name, not by its target's), and exactly the entries it does not
+    ignore are reported"""
+    prog = sess.prog
+    fam = 'gitarg'
+    M = 4
+    sess.bounds[fam] = {'nodes': M, 'entry kinds': 'file / directory / link (target any node or dangling)', 'verdict of libgit2': 'symbolic per path'}
+
+    def ov():
+        out = []
+
+        def reg(pat, name):
+            def deco(f):
+                out.append((pat, f, name)); return f
+            return deco
+
+        @reg(r'^(git2::)?Repository::discover$', 'git2:Repository::discover (a repository is found)')
+        def discover(ctx, args, callee):
+            return ok(Agg([], 'Repository'))
+
+        @reg(r'^(git2::)?Repository::is_path_ignored$', 'git2:is_path_ignored (symbolic verdict per path; the argument is recorded)')
+        def ignored(ctx, args, callee):
+            p = ctx.deref(args[1])
+            fs = W.fs_of(ctx)
+            canonical = isinstance(p, W.CanonPathV)
+            ctx.ghost.setdefault('asked', []).append((p.node, p.text, canonical))
+            key = ('own' if not canonical else 'canon', p.node)
+            tbl = ctx.ghost.setdefault('verdicts', {})
+            if key not in tbl:
+                tbl[key] = ctx.fresh_bool('git_ignores_%s_%s' % key)
+            return ok(tbl[key])
+
+        @reg(r'^(std::fs::)?canonicalize$', 'fs:canonicalize (resolves a link to its target)')
+        def canonicalize(ctx, args, callee):
+            fs = W.fs_of(ctx)
+            p = W.as_path(ctx, args[0])
+            n = p.node
+            if n is None:
+                return W.err(W.IoError('not found'))
+            if n >= fs.nroots and ctx.decide(fs.islink(n)):
+                t = ctx.concretize(fs.target[n], range(fs.M + 1))
+                if t == fs.M:
+                    return W.err(W.IoError('dangling link'))
+                n = t
+            return ok(W.CanonPathV(n, fs.rootdepth[0] + BitVecVal(fs.rel_depth.get(n, 1), 32)))
+        return out + W.models()
+    ex = sess.executor(ov(), unwind=M + 6, maxsteps=400000)
+    box = {'paths': 0}
+
+    def run(ctx):
+        fs = W.FS(ctx, M, roots=1, kinds=(W.FILE, W.DIR, W.LINK))
+        ctx.ghost['fs'] = fs
+        ctx.ghost['match_all'] = BoolVal(True)
+        root = W.mk_root(prog, 'R0', BitVecVal(0, 32), BitVecVal(0, 32), False)
+        Fo = E.struct_fields(prog, 'RootOptions'); Fr = E.struct_fields(prog, 'Root')
+        root.f[Fr.index('options')].f[Fo.index('gitignore')] = some(BoolVal(True))
+        q = W.mk_query(prog, [root], BitVecVal(0, 32), ordered=False)
+        return fs, W.run_exec_search(ctx, prog, q)
+
+    def on_path(ctx, out):
+        box['paths'] += 1
+        if out[0] != 'ret':
+            if not box.get('bad'):
+                box['bad'] = True; sess.inconclusive(fam, str(out)[:300], fam)
+            return
+        fs, status = out[1]
+        asked = ctx.ghost.get('asked', [])
+        trace = [n for n, mem in ctx.ghost.get('trace', [])]
+        bad = [a for a in asked if a[2] or a[1] != fs.text.get(a[0])]
+        # every listed entry is asked about once, and reported iff not ignored
+        ver = ctx.ghost.get('verdicts', {})
+        cond = []
+        for n in set(a[0] for a in asked):
+            v = ver.get(('own', n))
+            if v is not None:
+                cond.append(If(v, BitVecVal(0, 8), BitVecVal(1, 8)) == BitVecVal(trace.count(n), 8))
+        okrows = (not cond) or ctx.check(Not(And(cond))) == z3.unsat
+        if (bad or not okrows) and not box.get('viol'):
+            box['viol'] = True
+            what = ('libgit2 is asked about %r (canonical: %s) for the entry %r' % (bad[0][1], bad[0][2], fs.text.get(bad[0][0]))) if bad else 'rows are not the entries libgit2 does not ignore'
+            sess.violated(fam, 'gitarg/' + ('canonical-path' if bad else 'rows'), what, {}, cli_replay_gitarg(), fam)
+    ex.explore(run, on_path, time_budget=200)
+    if not box.get('viol') and not box.get('bad'):
+        sess.discharged('gitarg: is_path_ignored is asked about each entry\'s own path; the rows are the entries it does not ignore', family=fam, queries=box['paths'])
+
+
+def cli_replay_gitarg():
+    """a repository with *.log ignored and links whose own name and target name get different verdicts; oracle: git check-ignore"""
+    def rep():
+        exe = common.native_binary()
+        if not shutil.which('git'):
+            return False, 'git is not installed: cannot replay'
+        d = os.path.realpath(tempfile.mkdtemp(prefix='verif-c20g-', dir=common.SCRATCH_ROOT))
+        try:
+            env = {'PATH': os.environ['PATH'], 'HOME': d, 'TZ': 'UTC', 'GIT_CONFIG_NOSYSTEM': '1'}
+            repo = os.path.join(d, 'repo'); os.makedirs(os.path.join(repo, 'sub'))
+            subprocess.run(['git', 'init', '-q', '.'], cwd=repo, env=env, check=True, stdout=subprocess.PIPE, stderr=subprocess.PIPE)
+            open(os.path.join(repo, '.gitignore'), 'w').write('*.log\n')
+            for f in ('a.log', 'data.txt', 'sub/b.log', 'sub/notes.txt'):
+                open(os.path.join(repo, f), 'w').write('x')
+            os.symlink('data.txt', os.path.join(repo, 'current.log')); os.symlink('../a.log', os.path.join(repo, 'sub', 'report.txt')); os.symlink('data.txt', os.path.join(repo, 'alias.txt'))
+            allp = []
+            for root, dirs, files in os.walk(repo):
+                if '.git' in dirs:
+                    dirs.remove('.git')
+                for n in dirs + files:
+                    allp.append(os.path.relpath(os.path.join(root, n), repo))
+            ci = subprocess.run(['git', 'check-ignore', '--stdin'], cwd=repo, env=env, input='\n'.join(allp).encode(), stdout=subprocess.PIPE, stderr=subprocess.PIPE)
+            ign = set(ci.stdout.decode().split('\n')[:-1])
+            want = sorted(p for p in allp if p not in ign)
+            r = subprocess.run([exe, "select path from '%s' gitignore" % repo], env=env, stdout=subprocess.PIPE, stderr=subprocess.PIPE, timeout=20)
+            got = sorted(os.path.relpath(p, repo) for p in r.stdout.decode().split('\n')[:-1] if not (p == os.path.join(repo, '.git') or p.startswith(os.path.join(repo, '.git') + '/')))
+            return got != want, 'path from <repo> gitignore -> %r ; git check-ignore leaves %r' % (got, want)
+        finally:
+            shutil.rmtree(d, ignore_errors=True)
+    return rep
+
+
 def main(sess):
     sess.engines = ['mirsym + z3 (precedence, fold)', 'relang + z3 (translate)']
     sess.level = 'translation_validation'
@@ -346,6 +609,10 @@ def main(sess):
     only = getattr(sess, 'only', None)
     if not only or 'precedence' in only:
         fam_precedence(sess)
+    if not only or 'upstream' in only:
+        fam_upstream(sess)
+    if not only or 'gitarg' in only:
+        fam_gitarg(sess)
     if not only or 'fold' in only:
         fam_fold(sess)
     for tool in ('docker', 'hg'):
